@@ -78,6 +78,14 @@ out.append('\nAll twenty are detected. C18\'s and C20\'s seeds are liveness/timi
            'a correct variant of the same optimisation would need a contract too (contract-based verification flags\n'
            'unspecified new code; that is by design). Several detections are time-outs without a model\n'
            '(`no-failing-input-found`): the obligation that passed on the unchanged tree no longer discharges.\n')
+if os.path.exists('mutants/RESULTS.txt'):
+    out.append('\n### Hand-written and reverted-fix changes (must-fail corpus) and the obligation that catches each\n')
+    out.append('From the last thorough run (`mutants/RESULTS.txt`; the file name gives the property whose check must catch it):\n')
+    out.append('| change | violations | first failing obligation |\n|---|---|---|\n')
+    for l in sorted(open('mutants/RESULTS.txt')):
+        p = l.split()
+        if len(p) >= 3 and p[0].startswith('mutants/'):
+            out.append('| `%s` | %s | `%s` |\n' % (p[0][8:-5], p[1], p[2].replace('first=', '')))
 tail = open('DESIGN.tail.md').read().split('\n---------------------------------------------------------------------------\n')
 out.append('\n---------------------------------------------------------------------------\n' + '\n---------------------------------------------------------------------------\n'.join(tail[1:]))
 open('DESIGN.md', 'w').write('\n'.join(out))
